@@ -470,6 +470,24 @@ class _ConnectionShm:
         self.name = None
 
 
+def _discard_stream_input(transport: RpcTransport, info: RpcMethodInfo) -> None:
+    """Consume the input stream of a stream call that was refused before it started.
+
+    The client of a header-less stream method sends its first input batch
+    before it reads anything back, so it learns of a refusal (version or
+    parameter rejection, failed initialization) only from the reply to that
+    batch -- by which time its input IPC stream is on the wire.  Left unread,
+    that stream is parsed as the next request, and every later call on the
+    connection receives the previous call's response.  A method that declares
+    a header is different: its client reads the header stream first, sees the
+    error there and never opens an input stream, so there is nothing to read.
+    """
+    if info.method_type != MethodType.STREAM or info.header_type is not None:
+        return
+    with contextlib.suppress(pa.ArrowInvalid, OSError, StopIteration):
+        _drain_stream(ValidatedReader(ipc.open_stream(transport.reader), IpcValidation.NONE))
+
+
 # ---------------------------------------------------------------------------
 # RpcServer
 # ---------------------------------------------------------------------------
@@ -954,6 +972,7 @@ class RpcServer:
                 except ProtocolVersionError as exc:
                     err_schema = info.result_schema if info.method_type == MethodType.UNARY else _EMPTY_SCHEMA
                     _write_error_stream(transport.writer, err_schema, exc, server_id=self._server_id)
+                    _discard_stream_input(transport, info)
                     return
 
             # Request validation. Both steps are answered with a typed error
@@ -977,6 +996,7 @@ class RpcServer:
             except Exception as exc:
                 err_schema = info.result_schema if info.method_type == MethodType.UNARY else _EMPTY_SCHEMA
                 _write_error_stream(transport.writer, err_schema, exc, server_id=self._server_id)
+                _discard_stream_input(transport, info)
                 return
 
             # Determine the SHM segment for this call's data plane (resolving
@@ -1091,6 +1111,10 @@ class RpcServer:
                 try:
                     result = getattr(self._impl, info.name)(**kwargs)
                     _validate_result(info.name, result, info.result_type)
+                    # Inside the guard, as on the HTTP path: a returned value that does
+                    # not fit the declared result schema is the method's error and must
+                    # be answered, not allowed to escape serve_one with no reply.
+                    _write_result_batch(writer, info.result_schema, result, self._external_config, shm=shm)
                 except Exception as exc:
                     _hook_exc = exc
                     status = "error"
@@ -1098,7 +1122,6 @@ class RpcServer:
                     error_message = str(exc)
                     _write_error_batch(writer, schema, exc, server_id=self._server_id)
                     return
-                _write_result_batch(writer, info.result_schema, result, self._external_config, shm=shm)
         finally:
             duration_ms = (time.monotonic() - start) * 1000
             _emit_access_log(
@@ -1152,6 +1175,17 @@ class RpcServer:
         # the outer one handles streaming errors.  Only one access log fires per call.
         try:
             result: Stream[StreamState, Any] = getattr(self._impl, info.name)(**kwargs)
+            # Unpacking the returned object and writing its header are part of
+            # initialization: a method that returns something other than a Stream,
+            # or omits a declared header, is answered with an error stream like any
+            # other init failure instead of escaping with no reply.
+            output_schema = result.output_schema
+            input_schema = result.input_schema
+            state = result.state
+            if info.header_type is not None:
+                _write_stream_header(
+                    transport.writer, result.header, self._external_config, sink=sink, method_name=info.name
+                )
         except Exception as exc:
             _hook_exc = exc
             status = "error"
@@ -1159,6 +1193,7 @@ class RpcServer:
             error_message = str(exc)
             with contextlib.suppress(BrokenPipeError, OSError):
                 _write_error_stream(transport.writer, _EMPTY_SCHEMA, exc, server_id=self._server_id)
+            _discard_stream_input(transport, info)
             return
         finally:
             if status == "error":
@@ -1184,16 +1219,7 @@ class RpcServer:
                     except Exception:
                         _logger.debug("Dispatch hook end failed", exc_info=True)
 
-        output_schema = result.output_schema
-        input_schema = result.input_schema
-        state = result.state
         cancelled = False
-
-        # Write header IPC stream before the main output stream
-        if info.header_type is not None:
-            _write_stream_header(
-                transport.writer, result.header, self._external_config, sink=sink, method_name=info.name
-            )
 
         input_reader = ValidatedReader(ipc.open_stream(transport.reader), self._ipc_validation)
 
